@@ -250,6 +250,8 @@ class StreamProcessor(Entity):
         self._allowed_lateness_s = allowed_lateness_s
         self._late_event_policy = late_event_policy
         self._side_output = side_output
+        if watermark_interval_s <= 0:
+            raise ValueError(f"watermark_interval_s must be > 0, got {watermark_interval_s}")
         self._watermark_interval_s = watermark_interval_s
 
         # Window state: keyed by grouping key
